@@ -3,7 +3,10 @@
 (* subscribers received after every message, the concatenated HLS segments and the RTP packets of   *)
 (* remux.Rtmp2RtspRemuxer, demultiplexed by the independent readers of harness/proj, are decided    *)
 (* by the acceptor of RemuxOut (SameUnits, OnlyAllowedExtras, KeyHasParamSets, TsTime, Adts,        *)
-(* RtpTime, completeness at the end of the stream).                                                 *)
+(* RtpTime, completeness at the end of the stream).  C02 for the RTSP subscribers of the Group (rg:  *)
+(* DESCRIBE / SETUP / PLAY in one go at some point; rh: DESCRIBE and PLAY at two points): described as  *)
+(* the stream is at that moment (SdpCur), first video frame a key frame (KeyFirst), started by the next *)
+(* key frame / the next audio frame after PLAY (RtspStartsInTime).                                      *)
 EXTENDS RemuxOut, IOUtils
 
 Trace == ndJsonDeserialize(IOEnv.TRACE)
@@ -22,16 +25,27 @@ Reject(why) == /\ failed' = TRUE
 TraceReset ==
   /\ IsEvent("reset")
   /\ vc' = Trace[l].v /\ ac' = Trace[l].a /\ hist' = HistInit /\ cons' = [c \in AllCons |-> ConsInit]
-  /\ rtp' = [c \in RtpCons |-> RtpInit] /\ failed' = FALSE /\ UNCHANGED <<rm, act>>
-
-TraceJoin == /\ IsEvent("Join") /\ UNCHANGED <<vc, ac, hist, cons, rtp, rm, act, failed>>
+  /\ rtp' = [c \in RtpCons |-> IF c \in RtpGated THEN [RtpInit EXCEPT !.gate = TRUE] ELSE RtpInit]
+  /\ failed' = FALSE /\ UNCHANGED <<rm, act>>
 
 ConsAfter(h, o) == [c \in AllCons |-> IF c \in DOMAIN o THEN AcceptOut(h, cons[c], o[c]) ELSE cons[c]]
 RtpAfter(h, e) == IF "rtp" \in DOMAIN e
-                  THEN [c \in RtpCons |-> LET o == e.rtp[c] IN
-                         IF o.panic = "" THEN AcceptRtp(h, AcceptSdps(h, rtp[c], o.sdp, 1, o.late), o.frames, 1)
-                         ELSE [rtp[c] EXCEPT !.ok = FALSE]]
+                  THEN [c \in RtpCons |->
+                         IF c \in DOMAIN e.rtp
+                         THEN LET o == e.rtp[c] IN
+                              IF o.panic = "" THEN RtpPlayed(h, AcceptRtp(h, AcceptSdps(h, rtp[c], o.sdp, 1, o.late), o.frames, 1), o)
+                              ELSE [rtp[c] EXCEPT !.ok = FALSE]
+                         ELSE rtp[c]]
                   ELSE rtp
+
+\* an HTTP-TS subscriber joins, or an RTSP subscriber sends DESCRIBE (answered at once if the stream is described
+\* already: that description is judged against the stream as it is now) or, later, SETUP / PLAY
+TraceJoin ==
+  /\ IsEvent("Join") \/ IsEvent("Play")
+  /\ LET r2 == RtpAfter(hist, Trace[l])
+     IN IF ~failed /\ \A c \in RtpCons : r2[c].ok
+        THEN rtp' = r2 /\ failed' = FALSE /\ UNCHANGED <<vc, ac, hist, cons, rm, act>>
+        ELSE Reject({c \in RtpCons : ~r2[c].ok})
 
 TracePub ==
   /\ IsEvent("Pub")
@@ -56,10 +70,12 @@ TraceEnd ==
            /\ \A c \in RtpCons : RtpEndOk(hist, rtp[c])
            /\ StartsInTime(hist, c2["t1"]) /\ (e.hls.on => StartsInTime(hist, c2["hls"]))
            /\ RtpStartsInTime(hist, rtp["ra"])
+           /\ \A c \in RtpGated : RtspStartsInTime(hist, rtp[c])
         THEN cons' = c2 /\ failed' = FALSE /\ UNCHANGED <<vc, ac, hist, rtp, rm, act>>
         ELSE Reject({c \in AllCons : ~c2[c].ok} \cup {"end:" \o c : c \in {x \in AllCons : c2[x].ok /\ ~EndOk(hist, c2[x])}}
                     \cup {"start:" \o c : c \in {x \in {"t1", "hls"} : (x = "t1" \/ e.hls.on) /\ ~StartsInTime(hist, c2[x])}}
                     \cup (IF RtpStartsInTime(hist, rtp["ra"]) THEN {} ELSE {"start:ra"})
+                    \cup {"start:" \o c : c \in {x \in RtpGated : ~RtspStartsInTime(hist, rtp[x])}}
                     \cup {"end:" \o c : c \in {x \in RtpCons : ~RtpEndOk(hist, rtp[x])}} \cup (IF e.panic = "" THEN {} ELSE {"panic"}))
 
 TraceNext == TraceReset \/ TraceJoin \/ TracePub \/ TraceEnd
